@@ -445,6 +445,8 @@ impl<D: DependencyProvider, RT: AsyncRuntime> Solver<D, RT> {
         }
 
         loop {
+            #[cfg(feature = "verif-hooks")]
+            verif::tick();
             if level == starting_level {
                 tracing::trace!("Level {starting_level}: Resetting the decision loop");
             } else {
@@ -677,6 +679,8 @@ impl<D: DependencyProvider, RT: AsyncRuntime> Solver<D, RT> {
     /// it was provided by the user, and set its value to true.
     fn resolve_dependencies(&mut self, mut level: u32) -> Result<u32, UnsolvableOrCancelled> {
         loop {
+            #[cfg(feature = "verif-hooks")]
+            verif::tick();
             // Make a decision. If no decision could be made it means the problem is
             // satisfyable.
             let Some((candidate, required_by, clause_id)) = self.decide() else {
@@ -960,6 +964,8 @@ impl<D: DependencyProvider, RT: AsyncRuntime> Solver<D, RT> {
 
     fn propagate_and_learn(&mut self, mut level: u32) -> Result<u32, UnsolvableOrCancelled> {
         loop {
+            #[cfg(feature = "verif-hooks")]
+            verif::tick();
             match self.propagate(level) {
                 Ok(()) => {
                     return Ok(level);
@@ -1118,6 +1124,8 @@ impl<D: DependencyProvider, RT: AsyncRuntime> Solver<D, RT> {
         let clause_kinds = &self.state.clauses.kinds;
 
         while let Some(decision) = self.state.decision_tracker.next_unpropagated() {
+            #[cfg(feature = "verif-hooks")]
+            verif::tick();
             let watched_literal = Literal::new(decision.variable, decision.value);
 
             debug_assert!(
@@ -1132,6 +1140,8 @@ impl<D: DependencyProvider, RT: AsyncRuntime> Solver<D, RT> {
                 .watches
                 .cursor(&mut self.state.clauses.watched_literals, watched_literal);
             while let Some(cursor) = next_cursor.take() {
+                #[cfg(feature = "verif-hooks")]
+                verif::tick();
                 let clause_id = cursor.clause_id();
                 let clause = &clause_kinds[clause_id.to_usize()];
                 let watch_index = cursor.watch_index();
@@ -1405,6 +1415,8 @@ impl<D: DependencyProvider, RT: AsyncRuntime> Solver<D, RT> {
         let mut first_iteration = true;
         let clause_kinds = &self.state.clauses.kinds;
         loop {
+            #[cfg(feature = "verif-hooks")]
+            verif::tick();
             learnt_why.push(clause_id);
 
             clause_kinds[clause_id.to_usize()].visit_literals(
@@ -1445,6 +1457,8 @@ impl<D: DependencyProvider, RT: AsyncRuntime> Solver<D, RT> {
 
             // Select next literal to look at
             loop {
+                #[cfg(feature = "verif-hooks")]
+                verif::tick();
                 let (last_decision, last_decision_level) = self.state.decision_tracker.undo_last();
 
                 conflicting_solvable = last_decision.variable;
